@@ -102,6 +102,8 @@ def noicast(e):
 
 
 def top_nocast(e):
+    if e is None:
+        return ('none',)
     while is_expr(e) and e[0] in ('cast', 'icast'):
         e = e[2]
     return e
@@ -327,6 +329,8 @@ def canon(e, rename=None):
             return ('int', 0)
         if k in ('arrow', 'dot'):
             return x[:3]
+        if k == 'cond' and x[1][0] == 'int':
+            return x[2] if x[1][1] else x[3]
         if k == 'bin':
             op, a, b = x[1], x[2], x[3]
             if op in ('>', '>='):
